@@ -257,7 +257,7 @@ func Calls(fn *ssa.Function) []ssa.CallInstruction {
 func Returns(fn *ssa.Function) []*ssa.Return {
 	var out []*ssa.Return
 	for _, b := range fn.Blocks {
-		if len(b.Instrs) == 0 {
+		if len(b.Instrs) == 0 || b == fn.Recover {
 			continue
 		}
 		if r, ok := b.Instrs[len(b.Instrs)-1].(*ssa.Return); ok {
@@ -389,3 +389,29 @@ func shortQual(p *types.Package) string { return p.Name() }
 
 // TypeStr renders a type with short package qualifiers.
 func TypeStr(t types.Type) string { return types.TypeString(t, shortQual) }
+
+// RetVals returns the values a Return hands back, looking through go/ssa's
+// result spilling in functions that have defers (results are stored to
+// allocs, defers run, then the allocs are re-loaded).
+func RetVals(ret *ssa.Return) []ssa.Value {
+	out := make([]ssa.Value, len(ret.Results))
+	for i, v := range ret.Results {
+		out[i] = v
+		u, ok := v.(*ssa.UnOp)
+		if !ok || u.Op != token.MUL {
+			continue
+		}
+		al, ok := u.X.(*ssa.Alloc)
+		if !ok {
+			continue
+		}
+		instrs := ret.Block().Instrs
+		for j := len(instrs) - 1; j >= 0; j-- {
+			if st, ok := instrs[j].(*ssa.Store); ok && st.Addr == ssa.Value(al) {
+				out[i] = st.Val
+				break
+			}
+		}
+	}
+	return out
+}
